@@ -115,22 +115,18 @@ func (a *AuthIp) parseAuthIp() error {
 		return errors.Wrapf(err, "failed to unmarshal config from %s", a.name)
 	}
 
-	// the admitted set becomes exactly the list in the file: add what is new first, then drop
-	// what is no longer listed, and only then switch the flag
-	listed := make(map[string]struct{}, len(auth.IpList))
+	// the admitted set becomes exactly the list in the file. It is built in a fresh map that then
+	// replaces the old one: deleting the addresses that are no longer listed from the old map is
+	// not reliable with this hashmap (a deleted key can stay reachable while the map resizes in
+	// the background), and Validate would go on admitting them. The fresh map is large enough
+	// never to resize; the flag is switched last.
+	fresh := hashmap.New(uintptr(4*len(auth.IpList) + 16))
 	for _, ip := range auth.IpList {
-		listed[ip] = struct{}{}
-		if !IpMap.Insert(ip, struct{}{}) {
+		if !fresh.Insert(ip, struct{}{}) {
 			logging.Debugf("set ip %s", ip)
 		}
 	}
-	for kv := range IpMap.Iter() {
-		if ip, ok := kv.Key.(string); ok {
-			if _, keep := listed[ip]; !keep {
-				IpMap.Del(ip)
-			}
-		}
-	}
+	IpMap.HashMap = *fresh
 	IpMap.enable = auth.Enable
 	return nil
 }
